@@ -145,6 +145,17 @@ def run(ctx: Any, prog: Program) -> None:
         loop_vars = {x.id for l in walk_no_nested(wf) if isinstance(l, ast.For) and f'self.{index}' in U(l.iter) for x in ast.walk(l.target) if isinstance(x, ast.Name)}
         ok = (isinstance(parg, ast.Name) and parg.id in loop_vars) or (isinstance(parg, ast.Attribute) and parg.attr == 'filename' and isinstance(parg.value, ast.Name) and parg.value.id in loop_vars)
         ctx.check('C19.H3', ok, fs, ys[0], f'{cls}.walk_folder yields File(path={psrc}); it must be the stored file name (which the lookup normalises) or its key', func=f'{cls}.walk_folder', text=f'{cls}.walk_folder yields stored name')
+    # ---- H5: the directory backend's two existence tests agree (and mean "is a file": the other backends only index files) ---------------
+    ctx.rule('C19.H5', 'RawFileSystem._file_exists and _get_file use the same "is a file" test on the resolved path', floor=2)
+    rawm = fs.methods('RawFileSystem')
+    preds = {}
+    for mn_ in ('_file_exists', '_get_file'):
+        preds[mn_] = sorted({dotted(c.func) for c in ast.walk(rawm[mn_]) if isinstance(c, ast.Call) and (dotted(c.func) or '').startswith('os.path.') and dotted(c.func).split('.')[-1] in ('isfile', 'exists', 'isdir', 'lexists')})
+        ctx.shape('C19.H5', len(preds[mn_]) == 1, fs, rawm[mn_], f'RawFileSystem.{mn_} tests the resolved path with one os.path predicate (found {preds[mn_]})', func=f'RawFileSystem.{mn_}', text=f'{mn_} predicate')
+    for mn_ in ('_file_exists', '_get_file'):
+        if len(preds[mn_]) == 1:
+            ctx.check('C19.H5', preds[mn_] == ['os.path.isfile'], fs, rawm[mn_], f'RawFileSystem.{mn_} asks {preds[mn_][0]}(): a folder of the file set then counts as an existing name here, while the in-memory, zip and VPK '
+                      'backends (which index files only) say it is absent - and `name in fs` disagrees with `fs[name]`', func=f'RawFileSystem.{mn_}', text=f'{mn_} predicate')
     # ---- H4 ----------------------------------------------------------------------------------------------------
     ch = fs.methods('FileSystemChain')
     gf = ch['_get_file']
@@ -174,6 +185,27 @@ def run(ctx: Any, prog: Program) -> None:
                   'but the zip and VPK members (verbatim key lookup) do not - the chain falls through to a lower-priority member while walk_folder (os.path.join) still lists the file', func='FileSystemChain._get_file', text='prefix joined on lookup')
     else:
         ctx.shape('C19.H4', False, fs, gf, 'the member prefix must be joined in front of the looked-up name', func='FileSystemChain._get_file', text='prefix joined on lookup')
+    # a memo of earlier answers in front of the member loop is only right while the member list is what it was: every method that changes
+    # self.systems has to drop it (a priority insert puts a member in front of the one the cached answer came from)
+    memo_attrs = set()
+    first_loop_line = min((l.lineno for l in walk_no_nested(gf) if isinstance(l, ast.For) and dotted(l.iter) == 'self.systems'), default=10 ** 9)
+    for r_ in [x for x in ast.walk(gf) if isinstance(x, ast.Return) and x.value is not None and x.lineno < first_loop_line]:
+        for sub_ in ast.walk(r_.value):
+            if isinstance(sub_, ast.Subscript) and (dotted(sub_.value) or '').startswith('self.') and dotted(sub_.value) != 'self.systems':
+                memo_attrs.add(dotted(sub_.value))
+            if isinstance(sub_, ast.Call) and isinstance(sub_.func, ast.Attribute) and sub_.func.attr == 'get' and (dotted(sub_.func.value) or '').startswith('self.'):
+                memo_attrs.add(dotted(sub_.func.value))
+    for ma in sorted(memo_attrs):
+        for mname2, mfn2 in ch.items():
+            changes = [c for c in ast.walk(mfn2) if (isinstance(c, ast.Call) and isinstance(c.func, ast.Attribute) and dotted(c.func.value) == 'self.systems' and c.func.attr in ('insert', 'append', 'remove', 'pop', 'clear', 'extend', 'sort', 'reverse'))
+                       or (isinstance(c, (ast.Assign, ast.AugAssign, ast.Delete)) and any((dotted(t) or '').startswith('self.systems') or (isinstance(t, ast.Subscript) and dotted(t.value) == 'self.systems')
+                                                                                        for t in (c.targets if isinstance(c, (ast.Assign, ast.Delete)) else [c.target])))]
+            if not changes or mname2 == '__init__':
+                continue
+            drops = any(isinstance(c, ast.Call) and isinstance(c.func, ast.Attribute) and dotted(c.func.value) == ma and c.func.attr == 'clear' for c in ast.walk(mfn2)) or \
+                any(isinstance(c, ast.Assign) and any(dotted(t) == ma for t in c.targets) for c in ast.walk(mfn2))
+            ctx.check('C19.H4', drops, fs, changes[0], f'FileSystemChain._get_file answers from the memo `{ma}` before it looks at the members, but FileSystemChain.{mname2} changes self.systems without dropping it: a name looked up '
+                      'earlier keeps returning the old member\'s file after a member that also has it was inserted in front (priority=True)', func=f'FileSystemChain.{mname2}', text=f'{mname2}: memo {ma} dropped when the member list changes')
     # every loop over the members, in any chain method: the name handed to a member is prefix + the caller's name, built afresh per member
     n_loops = 0
     for mname, mfn in ch.items():
@@ -315,6 +347,8 @@ def run(ctx: Any, prog: Program) -> None:
 
 
 MUTANTS = [
+    {'id': 'raw_exists_accepts_folders', 'file': 'filesys.py', 'find': "        return os.path.isfile(self._resolve_path(name))", 'replace': "        return os.path.exists(self._resolve_path(name))", 'expect': 'C19.H5'},
+    {'id': 'chain_memo_never_dropped', 'file': 'filesys.py', 'find': "        \"\"\"Search for a file on each filesystem in turn.\"\"\"\n", 'replace': "        \"\"\"Search for a file on each filesystem in turn.\"\"\"\n        try:\n            return self._located[name]\n        except KeyError:\n            pass\n", 'extra': [{'file': 'filesys.py', 'find': "        super().__init__('')\n        self.systems = []\n", 'replace': "        super().__init__('')\n        self.systems = []\n        self._located = {}\n"}, {'file': 'filesys.py', 'find': "            return File(self, full_name, file_info)\n", 'replace': "            self._located[name] = File(self, full_name, file_info)\n            return self._located[name]\n"}], 'expect': 'C19.H4'},
     {'id': 'vpk_exists_asks_archive', 'file': 'filesys.py', 'find': "        return name.casefold().replace('\\\\', '/') in self._name_to_file\n", 'replace': "        return name.casefold().replace('\\\\', '/') in self.vpk\n", 'expect': 'C19.H1'},
     {'id': 'add_sys_folds_prefix', 'file': 'filesys.py', 'find': "        if priority:\n            self.systems.insert(0, (sys, prefix))", 'replace': "        prefix = prefix.casefold()\n        if priority:\n            self.systems.insert(0, (sys, prefix))", 'expect': 'C19.H4'},
     {'id': 'ok_add_sys_normalises_slashes', 'file': 'filesys.py', 'find': "        if priority:\n            self.systems.insert(0, (sys, prefix))", 'replace': "        prefix = prefix.replace('\\\\', '/')\n        if priority:\n            self.systems.insert(0, (sys, prefix))", 'expect': None},
